@@ -256,11 +256,12 @@ PRIO = None
 
 
 def _prio(specenv, b):
-    """prio(b): the value b.get_priority() returns in the current heap (pure, deterministic: assumption)."""
+    """prio(b): the value b.get_priority() returns while the scheduler selects a batch.  Assumption: user
+    get_priority() is pure and deterministic and no batch changes during one selection, so within
+    _select_batch_to_flush it is a function of the batch alone."""
     global PRIO
     import z3 as _z3
     from pyvc.smt import V as _V
-    from pyvc.state import AVV, AVI
     if PRIO is None:
-        PRIO = _z3.Function("prio", _V, AVV, AVI, _V)
-    return PRIO(b, specenv.heap.get("items"), specenv.heap.get("$llen"))
+        PRIO = _z3.Function("prio", _V, _V)
+    return PRIO(b)
